@@ -113,7 +113,7 @@ func runChecks(repo, prop, tier, out, explain string, verbose bool) (code int) {
 			ctxs[id] = append(ctxs[id], c)
 		}
 		p = nil
-		pureCache = map[any]bool{}
+		resetEffCache()
 		treePureCache = map[any]bool{}
 		runtime.GC()
 	}
